@@ -41,7 +41,7 @@ class ParamsProp(Prop):
             n = nq if tier == "quick" else nq * 20
             for i in range(n):
                 r = Rng(seed, self.id + ":" + fam, i)
-                if fam in ("wide_mapping", "many_layers", "many_refs"):
+                if fam in ("wide_mapping", "many_layers", "many_refs", "embedded_chain"):
                     layers = getattr(D, fam)(r, tier)
                 else:
                     layers = D.FAMILIES[fam](r)
